@@ -164,7 +164,9 @@ def shape_pairs(draw):
         return [n, 1], [1, m]
     if kind == 4:
         return [m], [n, m]
-    s = draw(st.sampled_from([([n], []), ([], [n]), ([n, m], []), ([n, m], [m]), ([1], [n])]))
+    # (a one-element operand with more dimensions than the other one still shapes the result)
+    s = draw(st.sampled_from([([n], []), ([], [n]), ([n, m], []), ([n, m], [m]), ([1], [n]), ([1, 1], [n]), ([n], [1, 1]),
+                              ([1, 1, 1], [n, m])]))
     return list(s[0]), list(s[1])
 
 
